@@ -52,6 +52,7 @@ Step(G0, ev) ==
                                              !.order = Append(@, x), !.lastEnter = ev.t]
               [] ev.k = "offer" -> [G EXCEPT !.it = [Pad(@, x) EXCEPT ![x].offer = ev.t], !.offers = Append(@, x)]
               [] ev.k = "take"  -> [G EXCEPT !.it = [Pad(@, x) EXCEPT ![x].take = ev.t], !.takes = Append(@, x)]
+              [] ev.k = "cancel" -> [G EXCEPT !.it = [Pad(@, x) EXCEPT ![x].req = -1, ![x].grant = -1]]   \* reservation withdrawn
               [] OTHER -> G
       stalledNow == ev.rd > 0 /\ ev.gg = 0
   IN IF stalledNow /\ G1.stall < 0 THEN [G1 EXCEPT !.stall = ev.t]
@@ -103,7 +104,7 @@ LastPos == IF B.order = <<>> THEN L
                 ELSE IF x.pred = 0 \/ It(x.pred).take >= 0 THEN B.now - x.enter
                 ELSE -1     \* behind a waiting item: position not derived here
 T_C13_AdmitToCap ==
-  (Acc /\ e.k = "eoi") =>
-     \A i \in 1..Len(B.it) : (It(i).req >= 0 /\ It(i).grant < 0 /\ (i = 1 \/ It(i-1).grant >= 0)) =>
+  \* somebody is waiting for space (then the request at the head of the line is waiting too)
+  (Acc /\ e.k = "eoi" /\ (\E i \in 1..Len(B.it) : It(i).req >= 0 /\ It(i).grant < 0)) =>
          ~(e.n + e.gp < Cap /\ LastPos >= Slot /\ B.now - B.lastEnter >= Slot)
 =============================================================================
